@@ -80,6 +80,9 @@ func Unpack(buf []byte, dotu bool) (fc *Fcall, fcsz int, err error) {
 
 		if dotu {
 			if len(p) > 0 {
+				if len(p) < 4 {
+					goto szerror
+				}
 				fc.Unamenum, p = gint32(p)
 			} else {
 				fc.Unamenum = NOUID
@@ -109,6 +112,9 @@ func Unpack(buf []byte, dotu bool) (fc *Fcall, fcsz int, err error) {
 
 		if dotu {
 			if len(p) > 0 {
+				if len(p) < 4 {
+					goto szerror
+				}
 				fc.Unamenum, p = gint32(p)
 			} else {
 				fc.Unamenum = NOUID
@@ -121,6 +127,9 @@ func Unpack(buf []byte, dotu bool) (fc *Fcall, fcsz int, err error) {
 			goto szerror
 		}
 		if dotu {
+			if len(p) < 4 {
+				goto szerror
+			}
 			fc.Errornum, p = gint32(p)
 		} else {
 			fc.Errornum = 0
@@ -140,6 +149,9 @@ func Unpack(buf []byte, dotu bool) (fc *Fcall, fcsz int, err error) {
 
 	case Rwalk:
 		m, p = gint16(p)
+		if len(p) != int(m)*13 { /* nwqid*qid[13] */
+			goto szerror
+		}
 		fc.Wqid = make([]Qid, m)
 		for i := 0; i < int(m); i++ {
 			p = gqid(p, &fc.Wqid[i])
@@ -157,6 +169,9 @@ func Unpack(buf []byte, dotu bool) (fc *Fcall, fcsz int, err error) {
 		fc.Fid, p = gint32(p)
 		fc.Name, p = gstr(p)
 		if p == nil {
+			goto szerror
+		}
+		if len(p) < 5 { /* perm[4] mode[1] */
 			goto szerror
 		}
 		fc.Perm, p = gint32(p)
